@@ -403,7 +403,21 @@ func (f *Frame) ufCall(fn *ssa.Function, args [][]Term, st *State) []Term {
 	}
 	// definitional instance
 	key := out[0].S
-	if !c.unfolded[key] && c.unfoldDepth < c.fuelFor(fn) {
+	inQuant := false
+	for _, q := range c.quantVars {
+		if strings.Contains(key, q) {
+			inQuant = true
+		}
+	}
+	addDef := func(t Term, pat Term) {
+		// definitional facts about a closed application are global truths
+		if inQuant {
+			c.addFact(t, pat)
+		} else {
+			c.assert(t)
+		}
+	}
+	if (inQuant || !c.unfolded[key]) && c.unfoldDepth < c.fuelFor(fn) {
 		c.unfolded[key] = true
 		c.unfoldDepth++
 		sub := &Frame{ctx: c, fn: fn, vals: map[ssa.Value][]Term{}, spec: true, argVals: args, depth: f.depth + 1, parent: f, label: f.label}
@@ -417,13 +431,13 @@ func (f *Frame) ufCall(fn *ssa.Function, args [][]Term, st *State) []Term {
 			for k := range out {
 				eqs = append(eqs, Eq(out[k], body[k]))
 			}
-			c.addFact(And(eqs...), out[0])
+			addDef(And(eqs...), out[0])
 		}
 		// result type invariant
-		c.addFact(typeInv(sig.Results(), out), out[0])
-	} else if !c.unfolded[key+"#ti"] {
+		addDef(typeInv(sig.Results(), out), out[0])
+	} else if inQuant || !c.unfolded[key+"#ti"] {
 		c.unfolded[key+"#ti"] = true
-		c.addFact(typeInv(sig.Results(), out), out[0])
+		addDef(typeInv(sig.Results(), out), out[0])
 	}
 	return out
 }
